@@ -1,7 +1,11 @@
 import PyElf.Driver.Json
 import PyElf.Spec.ElfImage
 import PyElf.Spec.ElfImageFast
+import PyElf.Spec.ElfWfFast
+import PyElf.Spec.ElfNoNames
 import PyElf.Model.ElfFile
+import PyElf.Model.ElfLookup
+import PyElf.Model.Utf8
 import PyElf.Model.Env
 open Lean
 namespace PyElf.Driver.C01
@@ -12,16 +16,29 @@ def fieldsOf (j : Json) : Except String Fields := do
   | .record fs => pure fs
   | _ => throw "expected a record"
 
+def secOfJson (s : Json) : Except String SecDesc := do
+  let body ← match s.getObjVal? "body" with
+    | .ok (Json.str h) => match Bytes.ofHex h with
+        | some b => pure (some b)
+        | none => throw "bad body hex"
+    | _ => pure none
+  pure ({ name := ← jHex s "name", hdr := ← fieldsOf (← s.getObjVal? "hdr"), body := body,
+          nameOff := ← jNat s "nameOff" } : SecDesc)
+
+/-- a list with run-length entries: `{"rep": k, key: x}` stands for `k` copies of `x` -/
+def expandReps {α} (key : String) (f : Json → Except String α) (js : List Json) : Except String (List α) := do
+  let parts ← js.mapM fun j =>
+    match j.getObjVal? "rep" with
+    | .ok r => do
+      let k ← jNatOf r
+      let x ← f (← j.getObjVal? key)
+      pure (List.replicate k x)
+    | .error _ => do pure [← f j]
+  pure parts.flatten
+
 def descOfJson (j : Json) : Except String ElfDesc := do
-  let secs ← (← jArr j "sections").mapM fun s => do
-    let body ← match s.getObjVal? "body" with
-      | .ok (Json.str h) => match Bytes.ofHex h with
-          | some b => pure (some b)
-          | none => throw "bad body hex"
-      | _ => pure none
-    pure ({ name := ← jHex s "name", hdr := ← fieldsOf (← s.getObjVal? "hdr"), body := body,
-            nameOff := ← jNat s "nameOff" } : SecDesc)
-  let segs ← (← jArr j "segments").mapM fieldsOf
+  let secs ← expandReps "sec" secOfJson (← jArr j "sections")
+  let segs ← expandReps "seg" fieldsOf (← jArr j "segments")
   pure { cls := ← jNat j "cls", le := ← jBool j "le", mclass := ← jStr j "mclass",
          solaris := ← jBool j "solaris", core := ← jBool j "core",
          ehdr := ← fieldsOf (← j.getObjVal? "ehdr"),
@@ -41,24 +58,94 @@ def optNat : Option Nat → Json
   | some n => jN n
   | none => Json.null
 
-/-- everything C01 observes of an opened file, from the model -/
+def optSec : Option (String × Bytes × Val) → Json
+  | some s => secJson s
+  | none => Json.null
+
+/-- a section as the library reports it: the name decoded as UTF-8 with U+FFFD replacement
+    (`StringTableSection.get_string`; Model/Utf8.lean), re-encoded -/
+def decodeName (s : String × Bytes × Val) : String × Bytes × Val := (s.1, Model.C01.utf8Replace s.2.1, s.2.2)
+
+/-- everything C01 observes of an opened file, from the model.  Lookups: for every queried name
+    `[get_section_index, has_section, get_section_by_name]` through the model's own functions
+    (Model/ElfLookup.lean: each builds the name map from one enumeration of the file).  The model keeps
+    names as bytes; when some name of the file is not valid UTF-8 the library's dict is keyed by the
+    DECODED names, so the lookups are then answered from `sectionNameMap` over the decoded names. -/
 def modelObserve (data : Bytes) (queries : List Bytes) : R Json := do
   let f ← openElf elfEnv elfStructsFor machineClassOf data
   let secs ← iterSections elfEnv f.S data f.header f.shstr
   let segs ← iterSegments elfEnv f.S data f.header f.shstr
-  let nmap := sectionNameMap secs
-  let look := queries.map fun q => optNat ((nmap.find? (·.1 == q)).map (·.2))
+  let secsD := secs.map decodeName
+  let allValid := secs.all fun s => Model.C01.utf8Replace s.2.1 == s.2.1
+  let look ← queries.mapM fun q => do
+    if allValid then
+      let idx ← Model.C01.getSectionIndex elfEnv f.S data f.header f.shstr q
+      let has ← Model.C01.hasSection elfEnv f.S data f.header f.shstr q
+      let sec ← Model.C01.getSectionByName elfEnv f.S data f.header f.shstr q
+      return Json.arr #[optNat idx, Json.bool has, optSec sec]
+    else
+      let m := sectionNameMap secsD
+      let idx := Model.C01.dictGet m q
+      return Json.arr #[optNat idx, Json.bool (Model.C01.dictHas m q), optSec (idx.bind fun i => secsD[i]?)]
   return Json.mkObj [
     ("elfclass", jN f.cls), ("little_endian", Json.bool f.le), ("header", f.header.toJson),
-    ("sections", Json.arr (secs.map secJson).toArray), ("segments", Json.arr (segs.map segJson).toArray),
+    ("sections", Json.arr (secsD.map secJson).toArray), ("segments", Json.arr (segs.map segJson).toArray),
     ("lookup", Json.arr look.toArray)]
 
+/-- what the property says must be observed (Spec): the description's observation; for a queried
+    name the index of the last section bearing it (`indexOfName`), whether there is one, and that
+    section as the enumeration reports it -/
 def specObserve (d : ElfDesc) (queries : List Bytes) : R Json := do
   let o ← d.observe elfEnv
+  let look := queries.map fun q =>
+    let idx := d.indexOfName q
+    Json.arr #[optNat idx, Json.bool idx.isSome, optSec (idx.bind fun i => o.sections[i]?)]
   return Json.mkObj [
     ("elfclass", jN d.cls), ("little_endian", Json.bool d.le), ("header", o.header.toJson),
     ("sections", Json.arr (o.sections.map secJson).toArray), ("segments", Json.arr (o.segments.map segJson).toArray),
-    ("lookup", Json.arr (queries.map fun q => optNat (d.indexOfName q)).toArray)]
+    ("lookup", Json.arr look.toArray)]
+
+/-- run-length encoding of consecutive equal entries: `[[count, entry], …]` (the ≥ 0xff00-section /
+    ≥ 0xffff-segment images consist of long runs of identical filler entries) -/
+def rle (xs : List Json) : Json :=
+  let step (acc : List (Nat × String × Json)) (x : Json) : List (Nat × String × Json) :=
+    let k := x.compress
+    match acc with
+    | (n, k', y) :: rest => if k == k' then (n + 1, k', y) :: rest else (1, k, x) :: acc
+    | [] => [(1, k, x)]
+  let runs := (xs.foldl step []).reverse
+  Json.arr (runs.map fun (n, _, x) => Json.arr #[jN n, x]).toArray
+
+def natsOf (req : Json) (k : String) : Except String (List Nat) := do
+  match req.getObjVal? k with
+  | .ok (Json.arr a) => a.toList.mapM jNatOf
+  | _ => pure []
+
+/-- the Spec's observation of a large description, run-length encoded, plus the entries at the
+    spot indices -/
+def specObserveBig (d : ElfDesc) (secIdx segIdx : List Nat) : R Json := do
+  let o ← d.observe elfEnv
+  let secs := o.sections.toArray
+  let segs := o.segments.toArray
+  return Json.mkObj [
+    ("elfclass", jN d.cls), ("little_endian", Json.bool d.le), ("header", o.header.toJson),
+    ("nsec", jN o.sections.length), ("nseg", jN o.segments.length),
+    ("sections", rle (o.sections.map secJson)), ("segments", rle (o.segments.map segJson)),
+    ("secAt", Json.arr (secIdx.map fun i => match secs[i]? with | some s => secJson s | none => Json.null).toArray),
+    ("segAt", Json.arr (segIdx.map fun i => match segs[i]? with | some s => segJson s | none => Json.null).toArray)]
+
+/-- the model on a large image: construction, both counts (the extended-numbering reads) and the
+    entries at the spot indices (enumerating 65 000 entries over `List` bytes is quadratic) -/
+def modelObserveBig (data : Bytes) (secIdx segIdx : List Nat) : R Json := do
+  let f ← openElf elfEnv elfStructsFor machineClassOf data
+  let nsec ← numSections elfEnv f.S data f.header
+  let nseg ← numSegments elfEnv f.S data f.header f.shstr
+  let secs ← secIdx.mapM (getSection elfEnv f.S data f.header f.shstr)
+  let segs ← segIdx.mapM (getSegment elfEnv f.S data f.header f.shstr)
+  return Json.mkObj [
+    ("elfclass", jN f.cls), ("little_endian", Json.bool f.le), ("header", f.header.toJson),
+    ("nsec", jN nsec), ("nseg", jN nseg),
+    ("secAt", Json.arr ((secs.map decodeName).map secJson).toArray), ("segAt", Json.arr (segs.map segJson).toArray)]
 
 def handle (req : Json) : Except String Json := do
   let k ← jStr req "k"
@@ -75,17 +162,44 @@ def handle (req : Json) : Except String Json := do
     match d.assembleFast tail with
     | none => return Json.mkObj [("wf", Json.bool false), ("why", "not encodable")]
     | some bytes =>
+      let nomodel := (jBool req "nomodel").toOption.getD false
+      -- `wf`: the domain of the theorems `*_exact_z` (compressed sections admitted);
+      -- `wf0`: the narrower domain of the theorems `*_exact` (no SHF_COMPRESSED section)
+      -- `wfN`: a well-formed file WITHOUT a section-name string table (Spec/ElfNoNames.lean): outside `wfZ`,
+      -- the known finding `no-name-table`
+      -- (`wfZFast = wfZ`, Spec.C01.wfZFast_eq; the fully enumerated ≥ 0xff00-section images of the thorough tier —
+      -- `nomodel` — are classified by it alone: `wf` and `wfNoNames` index `List`s quadratically)
+      let wfz := Spec.C01.wfZFast elfEnv d
+      return Json.mkObj [("wf", Json.bool wfz), ("wf0", if nomodel then Json.null else Json.bool (d.wf elfEnv)),
+                         ("wfN", Json.bool (!nomodel && !wfz && Spec.C01.wfNoNames elfEnv d)),
+                         ("bytes", jHexOf bytes),
+                         ("expect", resJson id (specObserve d queries)),
+                         ("model", if nomodel then Json.null else resJson id (modelObserve bytes queries))]
+  | "big" =>
+    -- large tables (real extended numbering): run-length encoded description and observation
+    let d ← descOfJson (← req.getObjVal? "ast")
+    let secIdx ← natsOf req "secIdx"
+    let segIdx ← natsOf req "segIdx"
+    match d.assembleFast 0 with
+    | none => return Json.mkObj [("wf", Json.bool false), ("why", "not encodable")]
+    | some bytes =>
+      -- `wfZFast = wfZ` (Spec.C01.wfZFast_eq): array-indexed, linear in the number of sections
+      -- `wfX`: outside `wfZ` (no name table) and inside the domain of `extnum_only_partial` (one SHT_NULL section
+      -- header carrying the escapes, e_shstrndx = SHN_UNDEF: the shape of a Linux core dump with ≥ 0xffff segments)
       let disjoint := match d.regions with
         | some rs => regionsDisjoint (sortRegions rs)
         | none => false
-      let nomodel := (jBool req "nomodel").toOption.getD false
-      return Json.mkObj [("wf", Json.bool (disjoint && d.wf elfEnv)), ("bytes", jHexOf bytes),
-                         ("expect", resJson id (specObserve d queries)),
-                         ("model", if nomodel then Json.null else resJson id (modelObserve bytes queries))]
+      return Json.mkObj [("wf", Json.bool (Spec.C01.wfZFast elfEnv d)),
+                         ("wfX", Json.bool (disjoint && Spec.C01.extnumOnly elfEnv d)), ("bytes", jHexOf bytes),
+                         ("expect", resJson id (specObserveBig d secIdx segIdx)),
+                         ("model", resJson id (modelObserveBig bytes secIdx segIdx))]
   | "raw" =>
     let data ← jHex req "hex"
     let queries : List Bytes := []
     return Json.mkObj [("model", resJson id (modelObserve data queries))]
+  | "utf8" =>
+    -- the decoding of names alone (self-test of Model/Utf8.lean against CPython)
+    return Json.mkObj [("out", jHexOf (Model.C01.utf8Replace (← jHex req "hex")))]
   | "open" =>
     -- construction only (C19): success or the error class
     let data ← jHex req "hex"
